@@ -44,6 +44,8 @@ pub fn vx_string_from(s: &str) -> (r: String) { s.to_string() }
 pub fn vx_lossy_string(b: &[u8]) -> (r: String) { String::new() }
 pub uninterp spec fn str_contains_spec(s: Seq<char>, p: Seq<char>) -> bool;
 #[verifier::external_body]
+pub fn vx_str_eq(s: &String, t: &str) -> (r: bool) ensures r == (s@ == t@) { s.as_str() == t }
+#[verifier::external_body]
 pub fn vx_str_contains(s: &String, pat: &str) -> (r: bool) ensures r == str_contains_spec(s@, pat@) { s.contains(pat) }
 // format! whose format string has literal text outside the placeholders: the result is never empty
 #[verifier::external_body]
